@@ -1554,4 +1554,88 @@ theorem indexRecords_spec {S : Prop} {B : String → Env → Prop} {r : Report} 
       · exact absurd hs hns
       · exact h1
 
+/-- `lastMention` really is the newest mentioning layer: nothing after it mentions `d`. -/
+theorem lastMention_newest (d : String) (arts : List Layer) (a : Layer) (h : lastMention d arts = some a) :
+    ∃ pre post, arts = pre ++ a :: post ∧ mentions d a = true ∧ ∀ b ∈ post, mentions d b = false := by
+  induction arts with
+  | nil => simp [lastMention] at h
+  | cons b rest ih =>
+    simp only [lastMention] at h
+    cases hr : lastMention d rest with
+    | some x =>
+      simp only [hr, Option.some.injEq] at h; subst h
+      obtain ⟨pre, post, h1, h2, h3⟩ := ih hr
+      exact ⟨b :: pre, post, by simp [h1], h2, h3⟩
+    | none =>
+      simp only [hr] at h
+      by_cases hm : mentions d b = true
+      · simp only [hm, if_true, Option.some.injEq] at h; subst h
+        refine ⟨[], rest, rfl, hm, ?_⟩
+        intro c hc
+        cases hmc : mentions d c with
+        | false => rfl
+        | true =>
+          -- a mentioning layer in `rest` would have been found
+          exfalso
+          have : ∀ (l : List Layer), c ∈ l → lastMention d l ≠ none := by
+            intro l
+            induction l with
+            | nil => intro hc; simp at hc
+            | cons x l ihl =>
+              intro hc
+              simp only [lastMention]
+              cases hl : lastMention d l with
+              | some y => simp
+              | none =>
+                rcases List.mem_cons.1 hc with hc | hc
+                · subst hc; simp [hmc]
+                · exact absurd hl (ihl hc)
+          exact this rest hc hr
+      · simp [hm] at h
+
+
+/-! ### linux report: unique keys, origin of the stored packages -/
+
+theorem linuxFill_uniq {arts : List Layer} {slots : List (Option Dist)} (entries : List (String × Pkg)) (ir r : Report)
+    (h : linuxFill arts slots entries ir = .ok r) (h1 : KeysUniq ir.pkgs) (h2 : KeysUniq ir.envs) :
+    KeysUniq r.pkgs ∧ KeysUniq r.envs := by
+  induction entries generalizing ir with
+  | nil => simp only [linuxFill, Except.ok.injEq] at h; subst h; exact ⟨h1, h2⟩
+  | cons en rest ih =>
+    obtain ⟨db, p⟩ := en
+    simp only [linuxFill] at h
+    cases he : linuxEnv arts slots db p with
+    | error f => simp [he] at h
+    | ok e =>
+      simp only [he] at h
+      exact ih _ h (keysUniq_aset _ _ h1) (keysUniq_aset _ _ h2)
+
+theorem linuxFill_pkgs_from {arts : List Layer} {slots : List (Option Dist)} (entries : List (String × Pkg)) (ir r : Report)
+    (h : linuxFill arts slots entries ir = .ok r) (id : String) (p : Pkg) (hm : (id, p) ∈ r.pkgs) :
+    (id, p) ∈ ir.pkgs ∨ ∃ db, (db, p) ∈ entries := by
+  induction entries generalizing ir with
+  | nil => simp only [linuxFill, Except.ok.injEq] at h; subst h; exact Or.inl hm
+  | cons en rest ih =>
+    obtain ⟨db, q⟩ := en
+    simp only [linuxFill] at h
+    cases he : linuxEnv arts slots db q with
+    | error f => simp [he] at h
+    | ok e =>
+      simp only [he] at h
+      rcases ih _ h with h1 | ⟨db', h1⟩
+      · simp only [Report.addPkgEnv] at h1
+        rcases mem_aset h1 with ⟨_, hv⟩ | hold
+        · right; exact ⟨db, by rw [hv]; exact List.mem_cons_self⟩
+        · exact Or.inl hold
+      · exact Or.inr ⟨db', List.mem_cons_of_mem _ h1⟩
+
+theorem linuxCoalesce_pkgs {arts : List Layer} {r : Report} (h : linuxCoalesce arts = .ok r) :
+    KeysUniq r.pkgs ∧ KeysUniq r.envs ∧ ∀ id p, (id, p) ∈ r.pkgs → p ∈ allPkgs arts := by
+  unfold linuxCoalesce at h
+  obtain ⟨u1, u2⟩ := linuxFill_uniq _ _ _ h (by simp [KeysUniq]) (by simp [KeysUniq])
+  refine ⟨u1, u2, fun id p hm => ?_⟩
+  rcases linuxFill_pkgs_from _ _ _ h id p hm with h1 | ⟨db, h1⟩
+  · simp at h1
+  · exact (linux_entries_ok db p h1).1
+
 end ClairModel.Coalesce
